@@ -104,7 +104,7 @@ def run(tier, seed):
     tb = L.tables()
     W = lambda v: L.word(v, tb)  # noqa
     kw = lambda v: [W(v)]  # noqa
-    trees = [t for t in gen_types(4 if thorough else 3, 10 if thorough else 7) if t[0] != "b"]
+    trees = [t for t in gen_types(4 if thorough else 3, 10 if thorough else 9) if t[0] != "b"]
     spellings = []
     for t in trees:
         for comma in (",", ", ", " , "):
@@ -164,7 +164,7 @@ def run(tier, seed):
     for s, t in use:
         tag = {"angleRT"} if ">" in tokens_of(s)[0] else set()
         for pos in (0, 1, 2):
-            opts = OPTS if thorough else [OPTS[(len(s) + pos) % len(OPTS)], OPTS[(len(s) + pos + 1) % len(OPTS)]]
+            opts = OPTS
             for otxt, oexp in opts:
                 cases.append((s, re.sub(r"\s+", "", s), None, pos, otxt, oexp, tag))
     for ddl, ety, esz in OTHER_FORMS:
